@@ -7,7 +7,8 @@
 (* header.  Values are compared as opaque strings.                          *)
 EXTENDS Integers, Sequences, FiniteSets, TLC
 
-ValClasses == {"absent", "empty", "long", "punct", "inner_space", "two"}
+\* uspace_edge: an ID that ends in a non-ASCII space (U+00A0) -- a legal field value that net/http hands over as it is
+ValClasses == {"absent", "empty", "long", "punct", "inner_space", "two", "uspace_edge"}
 Paths == {"proxied", "limited429", "nobackend503", "toolarge413", "plugin401"}
 
 \* bown: the backend's reply carries ID headers of its own with other values (proxied path only)
